@@ -277,6 +277,9 @@ def run_c09(case):
         link.srv_pdus = []
         if name == "set_mtu":
             fn = lambda: gc.set_mtu(args[0])
+        elif name == "srv_set_mtu":
+            # MTU exchange initiated by the server (handled by GattClient.on_exch_mtu_request)
+            fn = lambda: link.gs.set_mtu(args[0])
         elif name == "read":
             fn = lambda: gc.read(args[0])
         elif name == "read_blob":
